@@ -959,11 +959,11 @@ func TestVerifC39(t *testing.T) {
 	}()
 	st := &c39Stats{}
 	maxSnaps := ev.Pick(r, 1, 2)
-	writes := ev.Pick(r, []string{"w:0", "w:1", "c:2"}, []string{"w:0", "w:1", "w:2", "c:1", "c:2"})
+	writes := ev.Pick(r, []string{"w:0", "w:1", "c:2"}, []string{"w:0", "w:1", "c:1", "c:2"})
 	res := mc.Run(r, mc.System{
 		Name:          "hashslot-migration",
 		New:           func() mc.Instance { return c39New(r, st, maxSnaps, writes) },
-		MaxDepth:      ev.Pick(r, 7, 9),
+		MaxDepth:      ev.Pick(r, 7, 8),
 		MaxDeviations: ev.Pick(r, 2, 3),
 		MaxStates:     ev.Pick(r, int64(400000), int64(6000000)),
 		Bounds: map[string]any{"keys": c39Keys, "writes": fmt.Sprintf("%v (w = upsert, c = create-if-absent; per-key version tokens) routed to the current owner; before the migration starts only one w:0", writes),
